@@ -135,15 +135,24 @@ def convert_case(ctx, d, rng, case, k, prop):
     problems = []
     try:
         before = dir_digest(src)
-        # same-directory guard: raises and writes nothing
+        # same-directory guard: raises and writes nothing - also when the source directory is named
+        # through an alias (a `..` detour, a symbolic link, a relative path)
         c = EphysAlfCreator(m)
-        try:
-            c.convert(src, label=label, ampfactor=factor)
-            problems.append(('C13.guard', 'conversion into the source directory did not raise'))
-        except IOError:
-            pass
-        if dir_digest(src) != before:
-            problems.append(('C13.guard', 'the refused conversion wrote into the source directory'))
+        link = d / 'srclink'
+        if link.is_symlink():
+            link.unlink()
+        link.symlink_to(src, target_is_directory=True)
+        aliases = [src, str(src), src.parent / 'out' / '..' / 'src', link]
+        for alias in aliases[:(4 if k % 3 == 0 else 1)]:
+            try:
+                c.convert(alias, label=label, ampfactor=factor)
+                problems.append(('C13.guard', 'conversion into the source directory (named %s) did not raise' % alias))
+            except IOError:
+                pass
+            if dir_digest(src) != before:
+                problems.append(('C13.guard', 'the refused conversion (target named %s) wrote into the source directory' % alias))
+                break
+        link.unlink()
         m2 = c.convert(out, label=label, ampfactor=factor)
         after = dir_digest(src)
         # ---- source frame (C13): names against the specification, bytes against the hashes
@@ -306,6 +315,11 @@ def run(ctx, prop):
             key = clause
             if clause == 'C14.cluster_depths' and not r['curated']:
                 key = 'uncurated-empty-depth'
+            if clause == 'C13.TableDims' and kinds[rid].startswith('merged') and not r['curated']:
+                exp = dict(spikes=r['nspk'], clusters=r['ncl'], templates=r['ntm'], channels=r['nch'])
+                bad = sorted(b for b, v in r['dims'].items() if v != exp[b.split('.')[0]])
+                if bad == ['clusters.probes']:
+                    key = 'merged-cluster-probes'   # known finding: the merger sizes cluster_probes by the ids in use
             if clause in ('C14.template_channels', 'C14.cluster_channels', 'C14.template_waveforms',
                           'C14.cluster_waveforms') and short[rid]:
                 key = 'short-probe'       # known finding: a probe with fewer channels than the list width
